@@ -169,6 +169,41 @@ func main() {
 		persistent(fmt.Sprintf("persist-%d", i), r.Range(9, 14), r.Range(1, 5), r.Range(0, 3), uint32(r.Range(7, 8)))
 	}
 
+	// ---- the guard itself on an exhaustive small grid (model in the shards; here
+	// the safety arithmetic: a pass means the fork point is above LIH)
+	{
+		maxCur := 16
+		for _, crc := range []uint32{0, 3, 12} {
+			for _, rs := range []uint32{5, 10, 14} {
+				outs, err := chaincase.GuardGrid(crc, rs, maxCur)
+				if err != nil {
+					st.Fail("C30:harness", "guard grid could not be executed: "+err.Error(), nil)
+					break
+				}
+				id++
+				sh.Add(chaincase.CoqGuardGrid(id, crc, rs, maxCur, outs))
+				st.LogCase(run.Out, id, map[string]interface{}{"guard_grid": []uint32{crc, rs}})
+				k, bad := 0, 0
+				for _, dpos := range []bool{false, true} {
+					for _, l := range chaincase.GuardGridLs {
+						for cur := 0; cur <= maxCur; cur++ {
+							for d := 0; d <= maxCur+1; d++ {
+								got := outs[k]
+								k++
+								if d <= cur && uint32(cur) > crc && !got && uint32(cur-d) <= l && bad < 3 {
+									bad++
+									st.Fail("C30:guard-passes-fork-at-or-below-lih", fmt.Sprintf("IsIrreversible(cur=%d, detach=%d) = false with LIH=%d dpos=%v CRCOnlyDPOSHeight=%d RevertToPOWStartHeight=%d: fork point %d is not above LIH",
+										cur, d, l, dpos, crc, rs, cur-d), map[string]interface{}{"crc": crc, "rs": rs, "dpos": dpos, "lih": l, "cur": cur, "detach": d})
+								}
+							}
+						}
+					}
+				}
+				st.Count(fmt.Sprintf("grid:%d:%d", crc, rs), true, "guard-grid")
+			}
+		}
+	}
+
 	// ---- generated
 	n := run.N(40, 600)
 	for i := 0; i < n; i++ {
